@@ -126,10 +126,23 @@ def scenario_for(seed, index, tier, _random_only=False):
         login.append(['compress', threshold])
     login.append(['success'])
     play = []
-    for v in ka:
-        play.append(['ka', v])
-        if rng.random() < 0.5:
-            play.append(['pause', rng.choice([100, 1000, 50000])])
+    if 47 in sup and not big and rng.random() < 0.05:
+        # protocol 47's play-state Set Compression, right behind a
+        # keep-alive: the queued answer is written after the switch and has
+        # to be in the new format (the writers start once the client has
+        # seen the switch)
+        proto, mode = 47, 'play-switch'
+        login = [['success']]
+        play = [['ka', rng.choice([1, 300, 2**31 - 1])],
+                ['compress', threshold]]
+        ka = [play[0][1]] + ka
+        for v in ka[1:]:
+            play.append(['ka', v])
+    else:
+        for v in ka:
+            play.append(['ka', v])
+            if rng.random() < 0.5:
+                play.append(['pause', rng.choice([100, 1000, 50000])])
     second = None
     if not big and rng.random() < 0.08:
         # a second Connection object in the same process with its own
@@ -396,9 +409,11 @@ def execute(scenario, tape):
                 def run():
                     if k == 0:
                         st['connect'] = w.api('connect', conn.connect)
-                        w.wait_until(lambda: isinstance(conn.reactor,
-                                                        PlayingReactor)
-                                     or errors, 20000000)
+                        w.wait_until(lambda: (isinstance(
+                            conn.reactor, PlayingReactor) and (
+                                scenario['mode'] != 'play-switch' or
+                                conn.options.compression_enabled))
+                            or errors, 20000000)
                         st['started'] = True
                         ready['n'] += 1
                     # all parties start writing together
@@ -542,6 +557,13 @@ def check(scenario, w, st, res, app=None):
                     V.append(('C12/uncompressed-above-threshold', tag))
         elif pid == ids['sb.play.keep_alive']:
             ka_seen.append(body)
+        else:
+            # nobody wrote such a packet: bytes of some frame were taken
+            # for something else
+            ob()
+            V.append(('C12/unexpected-frame', {'id': pid,
+                                               'len': len(body)}))
+            return
     tags = [t for _s, t in seen]
     ob()
     if len(set(tags)) != len(tags):
